@@ -100,6 +100,7 @@
 #include <array>
 #include <cstddef>
 #include <cstdint>
+#include <any>
 #include <deque>
 #include <limits>
 #include <forward_list>
@@ -2044,6 +2045,40 @@ void chk_container_join_stateful(seq const &s)
   finish();
 }
 
+// sequence containers whose value_type can be constructed from (almost) anything - std::any swallows an iterator as
+// readily as an int: join still appends the ELEMENTS of the other containers
+template <class C>
+void chk_container_join_any(char const *kn, seq const &s)
+{
+  if (!start(kn, s))
+    return;
+  std::size_t const n = s.size();
+  auto const ints = [](C const &c) {
+    seq r;
+    for (std::any const &a : c)
+      r.push_back(a.type() == typeid(int) ? std::any_cast<int>(a) : -777);
+    return r;
+  };
+  for (std::size_t k = 0; k <= n; ++k)
+  {
+    C a, b;
+    for (std::size_t i = 0; i < n; ++i)
+      (i < k ? a : b).push_back(std::any(s[i]));
+    seq const b_before = ints(b);
+    lib();
+    C const got = fcppt::container::join(a, b);
+    expect(ints(got), s, "join", kn, "lvalues", par("split", static_cast<unsigned>(k)));
+    expect(ints(b), b_before, "join", kn, "second-argument-unchanged", par("split", static_cast<unsigned>(k)));
+    lib();
+    C const got2 = fcppt::container::join(C(a), b, C(a));
+    seq want2(s.begin(), s.end());
+    want2.insert(want2.end(), s.begin(), s.begin() + static_cast<std::ptrdiff_t>(k));
+    expect(ints(got2), want2, "join", kn, "three-operands", par("split", static_cast<unsigned>(k)));
+  }
+  VF_COUNT("judged/join-any");
+  finish();
+}
+
 template <class C>
 void chk_at_optional(char const *kn, C &c, seq const &r)
 {
@@ -3071,6 +3106,8 @@ void vf_slice_13()
     chk_container_join_assoc<std::multiset<int>>("multiset", s);
     chk_container_join_assoc<std::map<int, int>>("map", s);
     chk_container_join_stateful(s);
+    chk_container_join_any<std::list<std::any>>("list<any>", s);
+    chk_container_join_any<std::vector<std::any>>("vector<any>", s);
   }, true);
   chk_narrow_int_ranges();
   for_seqs("algorithm/single-pass-input-ranges", std::min(L(), 5U), [](seq const &s) { chk_single_pass(s); });
@@ -3294,7 +3331,7 @@ void body()
         "get_or_insert/found", "get_or_insert/inserted", "get_or_insert/throwing-create", "set_difference/proper-non-empty",
         "set_ops/incomparable-operands", "set_ops/multiset-common-element-with-multiplicity", "array::from_range/size-matches", "array::from_range/source-longer",
         "array::from_range/source-shorter", "array::append/an-empty-operand", "tuple::concat/an-empty-operand",
-        "sequence_iteration/throwing-action", "judged/join-stateful-compare", "narrow-int-range/more-elements-than-the-type-holds", "judged/single-pass-input-ranges"})
+        "sequence_iteration/throwing-action", "judged/join-stateful-compare", "narrow-int-range/more-elements-than-the-type-holds", "judged/single-pass-input-ranges", "judged/join-any"})
     vf::require_bucket(b);
   vf_slice_0();
   vf_slice_1();
